@@ -64,6 +64,10 @@ fn main() {
         props::c06::upgrade_child_main(mode.as_deref().unwrap_or(""));
         return;
     }
+    if prop == "C06-node-child" {
+        props::c06::node_child_main(mode.as_deref().unwrap_or(""), seed);
+        return;
+    }
     if prop == "C06-child" {
         props::c06::child_main(mode.as_deref().unwrap_or(""), seed);
         return;
